@@ -68,7 +68,13 @@ def objNames (ds : List Decl) : List Name :=
 
 def fnInternal (D : List FnDecl) : Bool := match D with | d :: _ => d.isStatic | [] => false
 def fnDefined (D : List FnDecl) : Bool := D.any (·.body.isSome)
-def fnInlineAny (D : List FnDecl) : Bool := D.any (·.isInline)
+/-- the declarations up to and including the definition -/
+def uptoDef : List FnDecl → List FnDecl
+  | [] => []
+  | d :: ds => if d.body.isSome then [d] else d :: uptoDef ds
+/-- declared `inline` when the definition is seen (GCC decides at that point whether an unreferenced static
+    function may be dropped; a later `inline` redeclaration does not take the emitted code back) -/
+def fnInlineAny (D : List FnDecl) : Bool := (uptoDef D).any (·.isInline)
 /-- 6.7.4p7: all file-scope declarations say `inline`, none says `extern` -/
 def fnInlineDefOnly (D : List FnDecl) : Bool := D.all (fun d => d.isInline && !d.isExtern)
 
@@ -272,6 +278,13 @@ def compositeSizeRegion (ds : List Decl) : Bool :=
     let D := objDecls ds x
     !objHasInit D && objDefined D &&
     (D.filter (fun d => !d.isExtern)).all (·.ty.unknownLen) && D.any (fun e => !e.ty.unknownLen))
+
+/-- C15-extern-init-after-static: `static T x; extern T x = init;` - the extern declaration inherits internal
+    linkage (6.2.2p4) and, having an initializer, is the definition -/
+def externInitAfterStaticRegion (ds : List Decl) : Bool :=
+  (objNames ds).any (fun x =>
+    let D := objDecls ds x
+    objInternal D && D.any (fun d => d.isExtern && d.init.isSome))
 
 /-! ### which address forms are valid for which entity (x86-64 psABI 3.5 code models, ELF TLS ABI)
 
